@@ -203,6 +203,29 @@ var scenarios = []scenario{
 		}
 		return ""
 	}},
+	// an alias whose original is gone (another user deleted or moved it): it is neither a file nor a folder any more,
+	// but whatever the reply, an account holding neither of the two delete (move) privileges must not have removed
+	// (moved) it
+	{name: "delete-dangling-alias", typ: 204, build: func(e env) []rc.Field { return []rc.Field{fn("alias-gone")} },
+		semantic: func(bits []byte, o outcome, srv *fixture.Server) string {
+			if rc.BitSet(bits, 0) || rc.BitSet(bits, 6) {
+				return ""
+			}
+			if len(o.diff) > 0 {
+				return fmt.Sprintf("an account with neither delete-file nor delete-folder caused %v", o.diff)
+			}
+			return ""
+		}},
+	{name: "move-dangling-alias", typ: 208, build: func(e env) []rc.Field { return []rc.Field{fn("alias-gone"), newp("Docs")} },
+		semantic: func(bits []byte, o outcome, srv *fixture.Server) string {
+			if rc.BitSet(bits, 4) || rc.BitSet(bits, 8) {
+				return ""
+			}
+			if len(o.diff) > 0 {
+				return fmt.Sprintf("an account with neither move-file nor move-folder caused %v", o.diff)
+			}
+			return ""
+		}},
 	// controls: no governing privilege, must be served whatever the bitmap
 	{name: "ctl-keepalive", typ: 500, build: func(e env) []rc.Field { return nil }},
 	{name: "ctl-userlist", typ: 300, build: func(e env) []rc.Field { return nil }},
@@ -217,7 +240,7 @@ func init() {
 	n := len(scenarios) * chunks
 	core.Register(&core.Simple{
 		Id: "C05", Lvl: "exploration", Quick: n, Thorough: n * 12, PerBatch: 72, Width: 24, Timeout: 1200,
-		RuleText: "one case = one request scenario (request type x target kind, 68 scenarios incl. controls, operations on existing aliases, and two hostile path encodings, a creation spelled like an existing account and posts to missing categories judged by absolute oracles) executed on identical fresh servers under a chunk of access bitmaps: all-ones (baseline), all-ones minus each governing bit, only the governing bits, the 64 single-bit bitmaps (exhaustive across the 8 chunks of a scenario) and seeded random bitmaps; the privileges are either held from the start, or set by an administrator between the actor's login and its agreed, or set on the live session (the privileges current when the request arrives are what counts); the oracle compares reply class, emissions to other clients and file/account/news/board snapshots with the baseline (granted) or demands an error reply and no change (denied). distinct = (scenario, bitmap class, granted/denied); non-trivial = every execution",
+		RuleText: "one case = one request scenario (request type x target kind, 70 scenarios incl. controls, operations on existing aliases (also on one whose original is gone), and two hostile path encodings, a creation spelled like an existing account and posts to missing categories judged by absolute oracles) executed on identical fresh servers under a chunk of access bitmaps: all-ones (baseline), all-ones minus each governing bit, only the governing bits, the 64 single-bit bitmaps (exhaustive across the 8 chunks of a scenario) and seeded random bitmaps; the privileges are either held from the start, or set by an administrator between the actor's login and its agreed, or set on the live session (the privileges current when the request arrives are what counts); the oracle compares reply class, emissions to other clients and file/account/news/board snapshots with the baseline (granted) or demands an error reply and no change (denied). distinct = (scenario, bitmap class, granted/denied); non-trivial = every execution",
 		Case:     runCase,
 	})
 }
@@ -247,6 +270,7 @@ func files(root string) {
 	fixture.WriteFile(root+"/Docs/Drop Box/hidden-in-dropbox.txt", "secret")
 	os.Symlink(root+"/file.txt", root+"/alias-file")
 	os.Symlink(root+"/dir", root+"/alias-dir")
+	os.Symlink(root+"/gone.txt", root+"/alias-gone") // its original was deleted later
 }
 
 const newsYAML = `Categories:
